@@ -60,8 +60,17 @@ def tier_cfg(tier):
 
 
 def setup(cfg):
+    import warnings
+
+    from sim import pin
+
+    pin.setup_repo(need_dataframe=True)
     import dask.array  # noqa: F401
     import dask.bag  # noqa: F401
+
+    # mixing expression-backed (dataframe) and graph-backed collections in one call is
+    # legal and only warns
+    warnings.filterwarnings("ignore", message="Computing mixed collections")
 
 
 class Gen:
@@ -82,8 +91,22 @@ class Gen:
 
     def collection(self):
         t, np, dask, da, db = self.tape, self.np, self.dask, self.da, self.db
-        kind = t.draw(4, "ckind")
+        kind = t.draw(6, "ckind")
         self.ncoll += 1
+        if kind >= 4:
+            # dataframe collections (expression-backed; pyarrow is an import stub here)
+            import pandas as pd
+
+            import dask.dataframe as dd
+
+            n, p, k = 2 + t.draw(6, "dn"), 1 + t.draw(3, "dp"), t.draw(5, "dk")
+            pdf = pd.DataFrame({"a": [i * 2 + k for i in range(n)], "b": [float(i % 3) for i in range(n)]})
+            ddf = dd.from_pandas(pdf, npartitions=p)
+            if kind == 4:
+                self.desc.append(["dataframe", n, p, k])
+                return ddf.assign(c=ddf.a + 1), pdf.assign(c=pdf.a + 1)
+            self.desc.append(["df-sum", n, p, k])
+            return ddf.a.sum(), pdf.a.sum()
         if kind == 0:
             a, b = t.draw(50, "da"), t.draw(50, "db")
             d = dask.delayed(operator.add)(dask.delayed(operator.mul)(a, 2), b)
@@ -187,6 +210,8 @@ def same(np, a, b):
             return False
     if isinstance(a, np.ndarray):
         return isinstance(b, np.ndarray) and a.dtype == b.dtype and a.shape == b.shape and bool((a == b).all())
+    if type(a).__name__ in ("DataFrame", "Series") and hasattr(a, "equals"):
+        return type(a) is type(b) and a.equals(b)
     if isinstance(a, dict):
         return list(a.keys()) == list(b.keys()) and all(same(np, a[k], b[k]) for k in a)
     if isinstance(a, (list, tuple)):
@@ -204,6 +229,10 @@ def meta_of(c):
         return ("Array", c.chunks, str(c.dtype), c.shape)
     if n == "Bag":
         return ("Bag", c.npartitions)
+    if n in ("DataFrame", "Series") and hasattr(c, "_meta"):
+        m = c._meta
+        cols = tuple(getattr(m, "columns", ())) or getattr(m, "name", None)
+        return (n, cols, str(getattr(m, "dtypes", getattr(m, "dtype", ""))))
     return (n,)
 
 
